@@ -235,6 +235,8 @@ class Engine:
             "max_handles": rng.randint(2, 5),
             "callers": rng.randint(2, 4),
             "maxdim": 30,
+            "mixed_dtypes": rng.random() < 0.3,
+            "scribble": rng.random() < 0.3,
         }
         w = {"new": 5, "assign": 30, "derive": 25, "observe": 25, "relations": 4, "reject": 2, "drop": 4}
         style = rng.choice(["flat", "assign", "derive", "observe"])
@@ -332,9 +334,20 @@ class Engine:
             return {"op": "assign_sl2z", "h": h.id}
         g = rng.choice(names)
         n = h.n if h.n is not None else cfg["n"]
-        M = gen_matrix(rng, cfg["family"], n)
+        fam = cfg["family"]
+        if cfg.get("mixed_dtypes") and rng.random() < 0.5:
+            # generators of one representation drawn from different families (an exact integer matrix
+            # next to a generic real or complex one) ...
+            fam = rng.choice(["unimodular", "unimodular_int", "float", "gaussian"])
+        M = gen_matrix(rng, fam, n)
         dtype = {"unimodular": "float64", "unimodular_int": "int64", "gaussian": "complex128",
-                 "float": "float64", "sl2z": "float64"}[cfg["family"]]
+                 "float": "float64", "sl2z": "float64"}[fam]
+        if cfg.get("mixed_dtypes"):
+            # ... and with different dtypes (exact integer / real / complex)
+            if fam in ("unimodular", "unimodular_int", "sl2z"):
+                dtype = rng.choice(["float64", "int64", "complex128"])
+            elif fam == "float":
+                dtype = rng.choice(["float64", "complex128"])
         return {"op": "assign", "h": h.id, "g": g, "mat": enc(M), "dtype": dtype,
                 "via_inverse": rng.random() < 0.2, "how": rng.choice(["setitem", "setitem", "set_generator"])}
 
@@ -811,7 +824,14 @@ class Engine:
         vals = {}
         for w in ws:
             try:
-                got = np.asarray(self._eval(h, w, accessor), dtype=np.complex128)
+                raw = self._eval(h, w, accessor)
+                got = np.array(raw, dtype=np.complex128)
+                if world.cfg.get("scribble") and isinstance(raw, np.ndarray) and raw.flags.writeable \
+                        and h.kind == "plain":
+                    # the caller overwrites, in place, the array it was handed; later evaluations
+                    # must not be affected (a returned array is the caller's)
+                    raw[...] = 7
+                    world.stats["probe.caller_scribbled_on_result"] += 1
             except Exception as e:
                 return ("R.eval.raised", "evaluating word %r raised %r" % ("".join(w) if h.simple else "*".join(w), e))
             if sym:
